@@ -400,19 +400,21 @@ func init() {
 				{Pkg: c, Func: "VH_C17_token", Args: []int64{3}, Unwind: 32},
 				{Pkg: c, Func: "VH_C17_header", Args: []int64{2}, Unwind: 32},
 				{Pkg: c, Func: "VH_C17_notoken", Unwind: 32},
+				{Pkg: "security", Func: "VH_C17_tls", Args: []int64{2}, Unwind: 32},
 				{Pkg: c, Func: "VH_C17_wiring", Args: []int64{0}, Unwind: 32, EngineOnly: true},
 				{Pkg: c, Func: "VH_C17_wiring", Args: []int64{1}, Unwind: 32, EngineOnly: true},
 				{Pkg: c, Func: "VH_C17_vacuity", Expect: "violated"},
 			}
 		},
-		Covers: map[string][]string{"VH_C17_token": {"end", "accepted", "rejected"}, "VH_C17_header": {"end", "accepted", "rejected"}, "VH_C17_notoken": {"end"}, "VH_C17_wiring": {"end", "accepted", "rejected"}},
+		Covers: map[string][]string{"VH_C17_token": {"end", "accepted", "rejected"}, "VH_C17_header": {"end", "accepted", "rejected"}, "VH_C17_notoken": {"end"}, "VH_C17_tls": {"end", "client-auth", "accepted", "refused"}, "VH_C17_wiring": {"end", "accepted", "rejected"}},
 		Bounds: map[string]string{
-			"quick":    "configured token of 1 and of 3 arbitrary bytes; presented token absent or arbitrary of 0..n+1 bytes (shorter = prefix-like, equal length, longer = suffix-like; case variants are just other byte values); a wholly arbitrary ASCII authorization header value of 0..10 bytes against a 2-byte token with the documented contract as oracle (scheme matched case-insensitively, token exactly); each of the four protected server types and the KV / Cluster servers; unary and streaming interceptor; the API-server registration closures of cmd.leader and cmd.follower executed with 2-byte arbitrary tokens configured",
+			"quick":    "configured token of 1 and of 3 arbitrary bytes; presented token absent or arbitrary of 0..n+1 bytes (shorter = prefix-like, equal length, longer = suffix-like; case variants are just other byte values); a wholly arbitrary ASCII authorization header value of 0..10 bytes against a 2-byte token with the documented contract as oracle (scheme matched case-insensitively, token exactly); each of the four protected server types and the KV / Cluster servers; unary and streaming interceptor; the API-server registration closures of cmd.leader and cmd.follower executed with 2-byte arbitrary tokens configured; TLS option logic: security.TLSInfo.ServerConfig/baseConfig with a trusted CA file present or not, ClientCertAuth on or off, an allowed common name of 0..2 arbitrary bytes: ClientAuth = RequireAndVerifyClientCert exactly when a CA or client-cert auth is configured, ClientCAs set from the CA file, and the installed VerifyPeerCertificate accepts verified chains (none, one, leaf+issuer, an empty chain first) exactly when the leaf's common name (0..2 arbitrary bytes) equals the allowed one",
 			"thorough": "same",
 		},
-		Outside: "the TLS clause (client certificate chains, common name / hostname checks): crypto/tls and crypto/x509 cannot be encoded, and the option logic in security.TLSInfo is not covered by this check; non-ASCII header bytes (gRPC transports reject them; unicode case folding tables are not encoded); several authorization values in one request (the first is used); gRPC's dispatch of info.Server; tokens longer than 4 bytes (string equality is length-generic)",
+		Outside: "the TLS handshake, chain building against the CA, PEM / certificate parsing and hostname matching (crypto/tls, crypto/x509: not encodable; what regatta asks them to enforce is checked, not that they enforce it); the AllowedHostname variant (delegates to x509.VerifyHostname); certificate reloading closures; non-ASCII header bytes (gRPC transports reject them; unicode case folding tables are not encoded); several authorization values in one request (the first is used); gRPC's dispatch of info.Server; tokens longer than 4 bytes (string equality is length-generic)",
 		Assumptions: []string{
 			"M5: grpc/metadata.FromIncomingContext returns the request's authorization value (or no metadata); the middleware's metadata wrapper, auth.AuthFromMD and the interceptors are interpreted from source",
+			"TLS harness: os.ReadFile returns the content of files the harness created; the fake CA file holds no PEM block (empty pool, as natively); the key-pair parser is the TLSInfo.parseFunc test hook",
 			"wiring harness: viper.GetBool/GetString return the configured values; captured variables of the closures (engine, conn, queue) are opaque; engine-only (no native twin: the closures are not addressable from outside leader()/follower())",
 		},
 	}
